@@ -238,10 +238,11 @@ func (b *BaseStore) InitBaseStore(ipfs coreiface.CoreAPI, identity *identityprov
 	b.index = options.Index(b.Identity().PublicKey)
 	b.muIndex.Unlock()
 
+	// the replicator gets a bus of its own: its events carry no store address, so on a
+	// bus shared with other stores nobody could tell whose replicator they come from
 	b.replicator, err = replicator.NewReplicator(b, options.ReplicationConcurrency, &replicator.Options{
-		Logger:   b.logger,
-		EventBus: b.eventBus,
-		Tracer:   b.tracer,
+		Logger: b.logger,
+		Tracer: b.tracer,
 	})
 	if err != nil {
 		return fmt.Errorf("unable to init error: %w", err)
